@@ -353,20 +353,33 @@ Fixpoint ends_up (up : bool) (evs : list revt) : bool :=
   | _ :: r => ends_up up r
   end.
 
+(* closed by a successful Close: a closed event without error and a close request at the broker *)
+Definition closed_ok (c : rs_case) : bool :=
+  existsb negb (rc_closedev c) && negb (N.of_nat (length (rc_closereqs c)) =? 0).
+
+(* everything accepted is in the union ledger (first content per sequence number, in order) or in the buffer *)
+Definition all_delivered (c : rs_case) : bool :=
+  lseqs_from 1 (rc_ledger c)
+  && (N.of_nat (length (rc_ledger c)) =? fst (fst (rc_final c)))
+  && forallb (fun id => pts_eqb (ledger_pts id (rc_ledger c) ++ buf_pts id (snd (rc_final c)))
+                                (racc_pts id (rc_evs c) (rc_rets c))) (rids (rc_evs c)).
+
 Definition c02_noloss (c : rs_case) : bool :=
   if reported_closed c then true
+  else if closed_ok c then
+    (* Close succeeded: it must have waited for every stored chunk (resend queue included) *)
+    all_delivered c && match rc_stored c with [] => true | _ => false end
   else
     match rc_stored c with
-    | [] =>       (* settled: everything cut has been acknowledged *)
-        lseqs_from 1 (rc_ledger c)
-        && (N.of_nat (length (rc_ledger c)) =? fst (fst (rc_final c)))
-        && forallb (fun id => pts_eqb (ledger_pts id (rc_ledger c) ++ buf_pts id (snd (rc_final c)))
-                                      (racc_pts id (rc_evs c) (rc_rets c))) (rids (rc_evs c))
+    | [] => all_delivered c      (* settled: everything cut has been acknowledged *)
     | _ =>
         (* chunks left in the storage of an open stream on a live connection after the broker has
            acknowledged everything it received: stored, never retransmitted - lost *)
         negb (ends_up true (rc_evs c)) || rc_closed c
     end.
+
+Definition timed_out (evs : list revt) : list N :=
+  concat (map (fun e => match e with EAckTimeout q => [q] | _ => [] end) evs).
 
 (* chunks stored (unacknowledged) when incarnation k died are received again in a later one *)
 Definition c02_retransmit_ok (c : rs_case) : bool :=
@@ -374,7 +387,8 @@ Definition c02_retransmit_ok (c : rs_case) : bool :=
   else
     match rc_stored c with
     | [] => forallb (fun d => forallb (fun q =>
-              existsb (fun rx => (fst d <? fst rx) && mem q (snd rx)) (rc_rx_by_inc c)) (snd d)) (rc_unacked_at_down c)
+              mem q (timed_out (rc_evs c))        (* removed by a configured ack timeout: by design *)
+              || existsb (fun rx => (fst d <? fst rx) && mem q (snd rx)) (rc_rx_by_inc c)) (snd d)) (rc_unacked_at_down c)
     | _ => true
     end.
 
